@@ -55,3 +55,18 @@ func VerifBuild(ctx context.Context, args []string) (*proxyserver.Server, error)
 
 // VerifTLSConfig builds the TLS configuration the way Run does (once, at start-up).
 func VerifTLSConfig(cw *certwatcher.CertWatcher) *tls.Config { return defaultTLSConfig(cw) }
+
+// VerifInitCertWatcher builds the certificate watcher the way Run does: file names from the
+// command-line flags, through initCertWatcher.  (The package-level logger settings of
+// certwatcher, which initCertWatcher replaces, are put back: the harness owns them.)
+func VerifInitCertWatcher(certFile, keyFile string) (*certwatcher.CertWatcher, error) {
+	flag.CommandLine = flag.NewFlagSet("fingerproxy", flag.ContinueOnError)
+	flag.CommandLine.SetOutput(io.Discard)
+	initFlags()
+	if err := flag.CommandLine.Parse([]string{"-cert-filename", certFile, "-certkey-filename", keyFile}); err != nil {
+		return nil, err
+	}
+	lg, vb := certwatcher.Logger, certwatcher.VerboseLogs
+	defer func() { certwatcher.Logger, certwatcher.VerboseLogs = lg, vb }()
+	return initCertWatcher(), nil
+}
